@@ -272,7 +272,7 @@ func (e *Engine) contentCongruence(ts []*Term) []*Term {
 			if x.Op != "app" {
 				return
 			}
-			if u := e.ufSpecs[fmt.Sprintf("%s#%d", x.Name, e.ar.Mode)]; u != nil && groundTerm(x) {
+			if u := e.ufSpecs[fmt.Sprintf("%s#%d", x.Name, e.ar.Mode)]; (u != nil || e.contentUFs[x.Name]) && groundTerm(x) {
 				if len(byName[x.Name]) == 0 {
 					names = append(names, x.Name)
 				}
@@ -291,7 +291,13 @@ func (e *Engine) contentCongruence(ts []*Term) []*Term {
 	for _, n := range names {
 		apps := byName[n]
 		u := e.ufSpecs[fmt.Sprintf("%s#%d", n, e.ar.Mode)]
-		sig := u.fn.Signature
+		var sig *types.Signature
+		if u != nil {
+			sig = u.fn.Signature
+		} else {
+			// ufcontent: one string parameter
+			sig = types.NewSignatureType(nil, nil, nil, types.NewTuple(types.NewVar(0, nil, "s", types.Typ[types.String])), nil, false)
+		}
 		pairs := 0
 		for i := 0; i < len(apps) && pairs < 12; i++ {
 			for j := i + 1; j < len(apps) && pairs < 12; j++ {
